@@ -178,6 +178,7 @@ func (h *FBDNSDB) ServeDNSWithRCODE(ctx context.Context, w dns.ResponseWriter, r
 
 	// Check if this is a supported edns version
 	if a, err := edns.Version(r); err != nil { // Wrong EDNS version, return at once.
+		a.Question = r.Question // edns.Version drops the question section
 		return h.writeAndLog(state, a, ecs)
 	}
 
